@@ -48,6 +48,11 @@ static int S_a_in_gap(void)
   return S_cur == S_A && S_a_gate && !S_a_create_done;
 }
 
+static ares_bool_t S_pend_snap; /* reinit_pending as of the last moment the lock was free */
+static void S_check_pending_unchanged(void)
+{
+  VP_ASSERT(S_ch->reinit_pending == S_pend_snap, "reinit_pending is written only while the channel lock is held");
+}
 static void S_run_child(struct ares_thread *t)
 {
   int prev = S_cur;
@@ -55,6 +60,7 @@ static void S_run_child(struct ares_thread *t)
   S_cur = S_CHILD;
   (void)ares_reinit_thread(S_ch); /* REAL child body */
   S_cur       = prev;
+  S_check_pending_unchanged();
   t->finished = 1;
   if (S_in_spawn_window)
     S_child_ran_in_window = 1;
@@ -103,6 +109,8 @@ void ares_channel_lock(const ares_channel_t *channel)
   S_yield();
   if (S_cur == S_A && S_a_locks++ == 0)
     S_a_pending_at_lock = S_ch->reinit_pending;
+  if (vp_lock_depth == 0)
+    S_check_pending_unchanged();
   vp_lock_depth++;
 }
 void ares_channel_unlock(const ares_channel_t *channel)
@@ -110,6 +118,8 @@ void ares_channel_unlock(const ares_channel_t *channel)
   VP_ASSERT(channel == S_ch, "unlock of the channel under test");
   VP_ASSERT(vp_lock_depth > 0, "unlock only while locked");
   vp_lock_depth--;
+  if (vp_lock_depth == 0)
+    S_pend_snap = S_ch->reinit_pending;
   if (S_cur == S_A && S_a_unlocks++ == 0)
     S_a_gate = !S_a_pending_at_lock && S_ch->reinit_pending && !S_a_create_done;
   S_yield();
@@ -211,5 +221,6 @@ static void S_prestate(ares_channel_t *c)
     VP_ASSUME(k == 0);
   }
   S_pending_pre = c->reinit_pending;
+  S_pend_snap   = c->reinit_pending;
 }
 #endif
